@@ -560,7 +560,7 @@ func c19Post(c *Ctx) {
 func init() {
 	Register(&PropDef{
 		ID: "C19", Variants: []string{"engine"}, SimConfig: c19SimConfig, Scenario: c19Scenario, Post: c19Post,
-		Rule: "pre-state: 0-3 blocks and some confirmations delivered sequentially, pool filled; then 2-4 tape-chosen requests (InsertBlock of two sibling forks with overlapping transactions or of a child of one of them, InsertConfirms for any of them, MineBlock, a batch of lock-free read queries) run as concurrent tasks on one node (deputy or observer, 1-5 deputies) under random-gap (mean 20/200/1500 yields) or PCT preemption at statement granularity in consensus, store, deputynode, txpool; afterwards every one of the k! serial orders is executed as a further bubble replaying the same generation tape (same workload, same simulated instants); non-trivial = >=2 requests and >40 task switches; distinct = event-log digests",
+		Rule: "pre-state: 0-3 blocks and some confirmations delivered sequentially, pool filled; then 2-4 tape-chosen requests (InsertBlock of two sibling forks with overlapping transactions or of a child of one of them, InsertConfirms for any of them, MineBlock, a batch of lock-free read queries) plus 0-2 RPC-thread consensus.SignBlock lookups for the blocks in flight (half of the pairs for the same hash; the returned signature must be the node's own over that hash) run as concurrent tasks on one node (deputy or observer, 1-5 deputies) under random-gap (mean 20/200/1500 yields) or PCT preemption at statement granularity in consensus, store, deputynode, txpool; afterwards every one of the k! serial orders is executed as a further bubble replaying the same generation tape (same workload, same simulated instants); non-trivial = >=2 requests and >40 task switches; distinct = event-log digests",
 		Real: []string{"chain/consensus.DPoVP (InsertBlock/InsertConfirms/MineBlock and its background goroutines)", "store.ChainDatabase + async file queue", "chain/deputynode", "chain/txpool", "chain/account", "common/subscribe"},
 		Stub: []string{"request sources (network, miner timer, RPC threads) = harness tasks"},
 		Assumptions: []string{"the engine's background jobs (confirm broadcast, batch confirm of stable blocks, evil-deputy judging, delayed confirm fetch) do not influence the compared outcome components (verdicts, stable, head, known-block set, pool), so comparing against the k! request orders is complete for this oracle", "confirm lists are not compared (the node's own optional signatures legitimately depend on order)"},
